@@ -170,6 +170,7 @@ class ValidateConstraints:
         }
         if c.is_return:
             out["returns data itself"] = c.result == d
+            out["no failing constraint is counted"] = S.nfail(cs, d, n) == 0
         if c.is_raise:
             e = c.exc
             m, ch = c.attr(e, "messages"), c.attr(e, "children")
